@@ -10,6 +10,7 @@ struct RunCtx {
   bool nontrivial = false;   // set by the workload when the run satisfied the property's non-triviality rule
   uint64_t foreign = 0;      // oracle failures that belong to other properties (not reported by this check)
   bool foreign_seen = false; // ... in the current run (stateful workloads stop the run)
+  uint64_t distinct_key = 0; // when non-zero: what makes this run distinct (e.g. the schedule hash) instead of the plan digest
   uint64_t sim_time = 0;     // simulated time covered by this run (W3)
 };
 extern RunCtx g_run;
